@@ -20,6 +20,8 @@ pub enum Val {
     Int(i64),
     /// quarters, so that the value is exactly representable
     Float(i16),
+    /// a float without fractional part (`2.0`): still a float on the way out
+    WholeFloat(i8),
     Bool(bool),
     List(Vec<i64>),
     Record(Vec<(String, i64)>),
@@ -33,6 +35,7 @@ impl Val {
             Val::Str(s) => nu_str(s),
             Val::Int(i) => format!("{i}"),
             Val::Float(q) => format!("{:?}", *q as f64 / 4.0 + 0.125),
+            Val::WholeFloat(w) => format!("{:?}", *w as f64),
             Val::Bool(b) => format!("{b}"),
             Val::List(v) => format!("[{}]", v.iter().map(|x| x.to_string()).collect::<Vec<_>>().join(" ")),
             Val::Record(kv) => format!(
@@ -49,6 +52,7 @@ impl Val {
             Val::Str(s) => json!(s),
             Val::Int(i) => json!(i),
             Val::Float(q) => json!(*q as f64 / 4.0 + 0.125),
+            Val::WholeFloat(w) => json!(*w as f64),
             Val::Bool(b) => json!(b),
             Val::List(v) => json!(v),
             Val::Record(kv) => {
@@ -124,6 +128,7 @@ fn val_any() -> BoxedStrategy<Val> {
         4 => "[a-z0-9 é]{0,8}".prop_map(Val::Str),
         2 => (-1000i64..1000).prop_map(Val::Int),
         1 => (-40i16..40).prop_map(Val::Float),
+        1 => (-9i8..9).prop_map(Val::WholeFloat),
         1 => any::<bool>().prop_map(Val::Bool),
         1 => proptest::collection::vec(-5i64..5, 0..4).prop_map(Val::List),
         2 => proptest::collection::vec(("[a-d]{1,2}", 0i64..9), 0..3).prop_map(|kv| {
